@@ -108,6 +108,9 @@ pub struct World {
     pub owed_triggers: Vec<usize>,
     pub suspend_violation: Option<(String, String)>,
     pub empty_buf_reads: usize,
+    pub force_propagate: bool,
+    /// Set when shutdown is requested while the connection is idle: reads after this point are counted.
+    pub idle_at_shutdown: bool,
 }
 
 pub type Shared = Arc<Mutex<World>>;
@@ -125,7 +128,7 @@ impl World {
             wfault: WFault::None, write_calls: 0, write_failed_at: None, writes_after_failure: 0, write_dropped: false, lock_held_pending: false,
             end_requests: 0, replies_seen: 0, handler_log: Vec::new(), shutdown_requested_at_step: None, step: 0,
             current_poll_started_after_shutdown: false,
-            owed_triggers: Vec::new(), suspend_violation: None, empty_buf_reads: 0,
+            owed_triggers: Vec::new(), suspend_violation: None, empty_buf_reads: 0, force_propagate: false, idle_at_shutdown: false,
         }
     }
 
